@@ -9,6 +9,7 @@ import (
 
 	"github.com/openfga/openfga/internal/concurrency"
 	"github.com/openfga/openfga/internal/containers"
+	"github.com/openfga/openfga/internal/verifhook"
 )
 
 // Preprocessor filters or transforms a batch of values before they are
@@ -201,12 +202,14 @@ func (w *Basic) Execute(ctx context.Context) {
 		// all members of the cycle group to enter a ready state. Therefore,
 		// we use [context.Background] here.
 		w.Membership.WaitForAllReady(context.Background())
+		verifhook.Point("cycle.allready", w.Membership.label, w.Membership.IsLeader())
 
 		// Ordered teardown: the leader starts the cascade immediately;
 		// non-leaders wait to be woken by their predecessor. Each member
 		// closes its listeners (unblocking the next member's cyclical
 		// Recv calls) and then wakes the next member.
 		if w.Membership.IsLeader() {
+			verifhook.Point("cycle.cleanup", w.Membership.label, true)
 			w.Cleanup()
 			w.Membership.Next().Wake()
 			return
@@ -215,6 +218,7 @@ func (w *Basic) Execute(ctx context.Context) {
 		// When the context is canceled, sleep should still wait for the upstream
 		// worker to finish. Therefore, we use [context.Background] here.
 		w.Membership.Sleep(context.Background())
+		verifhook.Point("cycle.cleanup", w.Membership.label, false)
 		w.Cleanup()
 		w.Membership.Next().Wake()
 	}
